@@ -178,6 +178,7 @@ void op_binary(const Step& s) {
 	bool bu = s.arg(3) & 1; long kind = mod(s.arg(2), 3);      // 0 union, 1 union-disjoint, 2 intersection
 	size_t i = HI(s, 0, bu), j = HI(s, 1, bu); Client& c = CL(s);
 	TA ma = c.h[i].model, mb = c.h[j].model; const char* kn[] = {"union", "union_disj", "isect"};
+	{ size_t na = ma.states().size() + ma.rules.size(), nb = mb.states().size() + mb.rules.size(); if (na > 200 || nb > 200 || na * nb > 6000) throw Skip(); }     // results fed back into products: see ops_fa.cc
 	const std::string site = std::string("bdd_") + kn[kind] + (bu ? ":bu" : ":td") + (c.h[i].origin == c.h[j].origin ? ":shared-table" : "");
 	bool with_maps = s.arg(4) & 1;
 	VATA::AutBase::StateToStateMap m1, m2; VATA::AutBase::ProductTranslMap pm; TA got; bool ok = true;
